@@ -250,6 +250,7 @@ def random_history(rng: random.Random, *, allow_overlap: bool, small_motion: boo
         cam = {"outage": 0, "drop": 0, "dup": rng.choice([0, 0.15]), "shuffle": cam["shuffle"]}
     frames = []
     cam_faults = []
+    unwrapped = rng.random() < 0.25 and not small_motion
     while len(frames) < n_frames:
         # world evolves between exposures
         w.drift()
@@ -260,6 +261,17 @@ def random_history(rng: random.Random, *, allow_overlap: bool, small_motion: boo
             cam_faults.append("dropped_frame")
             continue
         specs, ids = w.snapshot()
+        if unwrapped:
+            # positions that were not wrapped back into the primary cell (a drifting droplet),
+            # and non-dyadic coordinates: equally valid descriptions of the same droplets
+            for sp in specs:
+                pos = list(sp["position"])
+                for ax, ((lo, hi), per) in enumerate(zip(box["bounds"], box["periodic"])):
+                    if per and rng.random() < 0.4:
+                        pos[ax] = pos[ax] + rng.choice([-1, 1, 2]) * (hi - lo)
+                    if rng.random() < 0.2:
+                        pos[ax] = pos[ax] + 0.1
+                sp["position"] = pos
         if rng.random() < cam["outage"]:
             specs, ids = [], []
             cam_faults.append("outage")
@@ -274,6 +286,8 @@ def random_history(rng: random.Random, *, allow_overlap: bool, small_motion: boo
             cam_faults.append("duplicate_frame")
     for f, t in zip(frames, gen_times(rng, len(frames))):
         f["t"] = t
+    if unwrapped and frames:
+        cam_faults.append("unwrapped_positions")
     return {"box": box, "cls": cls, "frames": frames, "world_events": w.events,
             "camera_faults": cam_faults, "allow_overlap": allow_overlap,
             "small_motion": small_motion}
